@@ -49,6 +49,8 @@ def units(tier):
     add("R+C outer-cancel, enclosing scope shielded", [("R", "task"), ("C", "soon")], env=("outer",), outer_shield=True)
     add("C group-cancel then outer-cancel, enclosing scope shielded", [("C", "task")], env=("group", "outer"), J=1, outer_shield=True)
     add("B+B body-fall outer-cancel, enclosing scope shielded", [("B", "task"), ("B", "soon")], env=("outer",), outer_shield=True)
+    for depth in (1, 2, 3):
+        add("R+B body cancels the group and awaits through %d re-raising wrapper layer(s)" % depth, [("R", "task"), ("B", "soon")], body="cancel-rewrap", rewrap=depth)
     for kind in ("base", "falsy"):
         add("E+X exc=%s" % kind, [("E", "task"), ("X", "soon")], exc=kind)
         add("E+B body-raise exc=%s" % kind, [("E", "task"), ("B", "soon")], body="raise", exc=kind)
